@@ -19,14 +19,18 @@ theorem persist_eq (e : Nat) (ids : List Nat) :
 /-- `mustWriteSnapshot`: the new manifest becomes the floor with the final directory fsync. -/
 theorem persist_along {G : Ghost} {s : St} (h : Inv G s) (e : Nat) (ids : List Nat)
     (hfresh : e ∉ G.mans.map (·.epoch)) (hge : G.aboveFloor e)
-    (halive : ∀ id ∈ ids, ∀ ps ∈ G.parts, ps.id = id → ps.dying = false) :
-    Along (fun s => ∃ G', Inv G' s) s (persist e ids) ∧
+    (halive : ∀ id ∈ ids, ∀ ps ∈ G.parts, ps.id = id → ps.dying = false) (Q : Ghost → Prop)
+    (hq : ∀ ms : ManS, ms.epoch = e → ms.ids = ids → ms.ready = false →
+      Q { G with mans := G.mans ++ [ms] } ∧ Q (({ G with mans := G.mans ++ [ms] } : Ghost).manReady ms.epoch) ∧
+        Q (G.withMan ms)) :
+    Along (InvQ Q) s (persist e ids) ∧
     Inv (G.withMan ⟨e, ids, s.next, false⟩) (run s (persist e ids)) := by
   obtain ⟨ms, hms⟩ : ∃ ms : ManS, ms = ⟨e, ids, s.next, false⟩ := ⟨_, rfl⟩
   have he : ms.epoch = e := by rw [hms]
   have hids : ms.ids = ids := by rw [hms]
   have hino : ms.ino = s.next := by rw [hms]
   rw [← hms]
+  obtain ⟨q0, q1, q2⟩ := hq ms he hids (by rw [hms])
   have h1 : Inv { G with mans := G.mans ++ [ms] } s :=
     inv_addMan h ms (by rw [he]; exact hfresh) (by rw [hms]) (by rw [hids]; exact halive)
   have hmem : ms ∈ ({ G with mans := G.mans ++ [ms] } : Ghost).mans := by simp
@@ -79,13 +83,13 @@ theorem persist_along {G : Ghost} {s : St} (h : Inv G s) (e : Nat) (ids : List N
       simp
   rw [persist_eq]
   constructor
-  · refine along_append (P := fun s => ∃ G', Inv G' s) (along_mono (fun _ hh => ⟨_, hh⟩) hA1) ?_
+  · refine along_append (P := InvQ Q) (along_mono (fun _ hh => ⟨_, hh, q0⟩) hA1) ?_
     rw [← hs4]
-    refine along_cons ⟨_, h4r⟩ ?_
+    refine along_cons ⟨_, h4r, q1⟩ ?_
     rw [← hs5]
-    refine along_cons ⟨_, h5⟩ ?_
+    refine along_cons ⟨_, h5, q1⟩ ?_
     rw [← hs6]
-    exact along_nil ⟨_, h6f⟩
+    exact along_nil ⟨_, h6f, q2⟩
   · rw [run_append, ← hs4]
     simp only [run_cons, run_nil]
     rw [← hs5, ← hs6]
@@ -124,8 +128,8 @@ theorem unlinks_along {G : Ghost} (id : Nat) (ps : PartS) (hps : ps ∈ G.parts)
 /-- `MustRMAll(part)`: the part is marked dying first; nothing at or above the floor lists it -/
 theorem rmPart_along {G : Ghost} {s : St} (h : Inv G s) (id : Nat)
     (hknown : ∃ ps ∈ G.parts, ps.id = id)
-    (hfree : ∀ ms ∈ G.mans, G.aboveFloor ms.epoch → id ∉ ms.ids) :
-    Along (fun s => ∃ G', Inv G' s) s (rmPart id) ∧ Inv (G.dyingPart id) (run s (rmPart id)) := by
+    (hfree : ∀ ms ∈ G.mans, G.aboveFloor ms.epoch → id ∉ ms.ids) (Q : Ghost → Prop) (hq : Q (G.dyingPart id)) :
+    Along (InvQ Q) s (rmPart id) ∧ Inv (G.dyingPart id) (run s (rmPart id)) := by
   have h1 : Inv (G.dyingPart id) s := inv_setDying h id hfree
   obtain ⟨ps, hps, hid⟩ := hknown
   have hps' : ({ ps with dying := true } : PartS) ∈ (G.dyingPart id).parts :=
@@ -135,8 +139,8 @@ theorem rmPart_along {G : Ghost} {s : St} (h : Inv G s) (id : Nat)
     inv_dirop hE (.delPart id _ hps' hid rfl)
   unfold rmPart
   constructor
-  · refine along_append (P := fun s => ∃ G', Inv G' s) (along_mono (fun _ hh => ⟨_, hh⟩) hA) ?_
-    exact along_cons ⟨_, hE⟩ (along_nil ⟨_, h2⟩)
+  · refine along_append (P := InvQ Q) (along_mono (fun _ hh => ⟨_, hh, hq⟩) hA) ?_
+    exact along_cons ⟨_, hE, hq⟩ (along_nil ⟨_, h2, hq⟩)
   · rw [run_append]; exact h2
 
 end Banyan.C04
